@@ -1031,6 +1031,19 @@ class Interp:
                         if r is not False and not s_b.zone.empty:
                             out.append((s_b, V("variant", adt="std::option::Option", vidx=0, vname="None", fields={})))
                     return out
+                if meth in ("checked_shl", "checked_shr") and len(xs) == 2:
+                    # Some(x << n) exactly when n is smaller than the width of the type, None otherwise
+                    bits = {"u8": 8, "i8": 8, "u16": 16, "i16": 16, "u32": 32, "i32": 32, "u64": 64, "i64": 64,
+                            "u128": 128, "i128": 128, "usize": 64, "isize": 64}.get(ity)
+                    if bits is not None:
+                        out = []
+                        for s2, lt in self.fork_cmp(st, "lt", xs[1].lin, Lin.const(bits)):
+                            if lt:
+                                val = mk_obj("%s(%s, %s)" % ("Shl" if meth == "checked_shl" else "Shr", show(xs[0]), show(xs[1])), ity)
+                                out.append((s2, V("variant", adt="std::option::Option", vidx=1, vname="Some", fields={0: val})))
+                            else:
+                                out.append((s2, V("variant", adt="std::option::Option", vidx=0, vname="None", fields={})))
+                        return out
                 if meth == "saturating_sub" and len(xs) == 2:
                     d = xs[0].lin.sub(xs[1].lin)
                     out = []
